@@ -29,7 +29,7 @@ def sym_table(ctx, n):
     return list(zip(ids, addrs))
 
 
-def o1_update(ctx, role, lvl, n, frames=1, tr=None, first=None, relay=False, full=False):
+def o1_update(ctx, role, lvl, n, frames=1, tr=None, first=None, relay=False, full=False, two_calls=False):
     clock = fresh_env(ctx)
     radio, node, addr = build_node(ctx, clock, role, lvl)
     link, outcome = per_packet_link(ctx, radio)
@@ -37,7 +37,7 @@ def o1_update(ctx, role, lvl, n, frames=1, tr=None, first=None, relay=False, ful
         node.multicast_relay = True
     if role == "master" and full:
         # every child slot of the master and of the relay 0o1 is leased (to IDs 10..18): an address request cannot be served
-        tab = [[10 + i, a] for i, a in enumerate((0o1, 0o2, 0o3, 0o4, 0o5, 0o11, 0o21, 0o31, 0o41))]
+        tab = [[10 + i, a] for i, a in enumerate((0o1, 0o2, 0o3, 0o4, 0o5, 0o11, 0o21, 0o31, 0o41)[:5 if two_calls else 9])]
         node.dhcp_dict = SymDict(tab) if ctx.symbolic else dict(tab)
     elif role == "master":
         tab = sym_table(ctx, 2)
@@ -57,11 +57,15 @@ def o1_update(ctx, role, lvl, n, frames=1, tr=None, first=None, relay=False, ful
                 ctx.assume(s_or(to == 0o100, to == addr))
         radio.inject_rx(ctx.int("pipe%d" % f if frames > 1 else "pipe", 0, 5), blist(payload))
         payloads.append(payload)
+        if two_calls and f == 0:
+            node.update()  # the first frame is handled by an update() call of its own; the second arrives afterwards
+            queue_frames(node)
+            payloads = []
         if f == 1 and isinstance(first, list) and len(first) > 2:
             # quick tier: the second frame is one the node discards (invalid origin or destination) - everything else arbitrary
             h2 = header_of(payload)
             ctx.assume(s_or(s_not(NS.valid_or_multicast(h2["to_node"])), s_not(NS.valid_or_multicast(h2["from_node"]))))
-        if tr is not None and n >= 8:  # the exploration is split over message-type ranges (parallelism only)
+        if tr is not None and n >= 8 and not (two_calls and f == 0):  # the exploration is split over message-type ranges
             ctx.assume(s_and(payload[6] >= tr[0], payload[6] <= tr[1]))
     t0, sent0 = clock.now, len(radio.sent)
     ret = node.update()  # any exception escaping here is a violation candidate
@@ -154,6 +158,9 @@ def jobs(tier):
     for n in ((8, 9) if tier == "quick" else (8, 9, 10, 12)):
         out.append(Job("O1-update-arbitrary-frame-full-lease-table", o1_update, dict(role="master", lvl=0, n=n, full=True, tr=[190, 200]),
                        cost=40, shards=6))
+    # an address request that cannot be served (full table), then an arbitrary second frame in the same pass
+    out.append(Job("O1-update-two-frames-full-lease-table", o1_update, dict(role="master", lvl=0, n=8, frames=2, first=195, full=True, two_calls=True, tr=[120, 131]),
+                   cost=300, shards=12))
     # sequences of two frames read in one update() pass (state carried from the first to the second)
     for t in (195, 194, 1):
         out.append(Job("O1-update-two-frames", o1_update, dict(role="master", lvl=0, n=8, frames=2, first=t), cost=400, shards=6))
